@@ -28,6 +28,8 @@ def arg_py(e, a):
     if a[0] == "other":
         return UINTS[a[1]](a[2])
     v = a[1]
+    if a[0] == "viewalt" and e is not None:
+        return to_py_alt(e, v)
     if e is None:
         return v
     if a[0] == "view" or e[0] in ("cont", "union"):
@@ -245,6 +247,9 @@ def gen_arg(rng, e, valid=True):
     if e is None:
         return ["none"]
     if valid:
+        if e[0] in ("list", "vec", "bitlist", "bytelist", "cont") and rng.random() < 0.2:
+            # a view of ANOTHER class that the library coerces into the element type (same content)
+            return ["viewalt", gen_value(rng, e, cap=5)]
         return ["val", gen_value(rng, e, cap=5)]
     k = e[0]
     r = rng.random()
